@@ -2966,6 +2966,47 @@ theorem card_enum (G : ι → ι → ℝ) (u : ι) (k : ℕ) (V : Fin k → ι)
 
 end nbrsum
 
+section nbrrenum
+variable {ι : Type} [Fintype ι] [DecidableEq ι]
+open BigOperators Finset
+
+/-- renumbering the nodes by a permutation `σ`: the neighbour-pair sum of node `x` in the renumbered matrix is the neighbour-pair sum of
+node `σ x` in the original matrix -/
+theorem nbrsum_renum (G : ι → ι → ℝ) (σ : Equiv.Perm ι) (x : ι) :
+    nbrsum (fun a b => G (σ a) (σ b)) x = nbrsum G (σ x) := by
+  unfold nbrsum
+  rw [← Equiv.sum_comp σ (fun v => ∑ w, if G (σ x) v ≠ 0 ∧ G (σ x) w ≠ 0 then G v w else 0)]
+  refine Finset.sum_congr rfl (fun v _ => ?_)
+  rw [← Equiv.sum_comp σ (fun w => if G (σ x) (σ v) ≠ 0 ∧ G (σ x) w ≠ 0 then G (σ v) w else 0)]
+
+/-- the number of non-zero entries of a row is unchanged by re-indexing the row -/
+theorem cnt_renum (G : ι → ι → ℝ) (σ : Equiv.Perm ι) (x : ι) :
+    cnt (fun b => G (σ x) (σ b)) = cnt (G (σ x)) := by
+  unfold cnt
+  refine Finset.card_bij (fun b _ => σ b) ?_ ?_ ?_
+  · intro b hb
+    simpa only [mem_filter, mem_univ, true_and] using hb
+  · intro a _ b _ hab
+    exact σ.injective hab
+  · intro y hy
+    refine ⟨σ.symm y, ?_, σ.apply_symm_apply y⟩
+    simpa only [mem_filter, mem_univ, true_and, Equiv.apply_symm_apply] using hy
+
+/-- SMT-shaped forms: the renumbered matrix is a separate matrix `H` that agrees with the renumbering in every cell -/
+theorem nbrsum_renum_cells (G H : ι → ι → ℝ) (σ : Equiv.Perm ι) (h : ∀ a b, H a b = G (σ a) (σ b)) :
+    ∀ x, nbrsum H x = nbrsum G (σ x) := by
+  intro x
+  rw [matrix_ext_cells H (fun a b => G (σ a) (σ b)) h]
+  exact nbrsum_renum G σ x
+
+theorem cnt_renum_cells (G H : ι → ι → ℝ) (σ : Equiv.Perm ι) (h : ∀ a b, H a b = G (σ a) (σ b)) :
+    ∀ x, cnt (H x) = cnt (G (σ x)) := by
+  intro x
+  rw [matrix_ext_cells H (fun a b => G (σ a) (σ b)) h]
+  exact cnt_renum G σ x
+
+end nbrrenum
+
 -- (tenth batch, `section dijkstra`: definitions `wwalk`, `reachw`, `wd`; `wd_self`, `wd_nonneg`, `wd_le`, `le_wd`, `wd_approx`, `wd_attained`
 --  (the infimum is a minimum), `wd_relax`, `wd_triangle`, `wwalk_cross(_wd)`, `dijkstra_lower`, `dijkstra_step`, `dijkstra_step_le`,
 --  `dijkstra_step_inv`, `dijkstra_step_T`, `dijkstra_init`, `dijkstra_exhausted`, `dijkstra_smt`, `wd_smt`, `reachw_iff_sdist`, `reachw_iff_walk(_pos)`, `wd_pos`, `wd_pred`:
@@ -2983,5 +3024,6 @@ end nbrsum
 -- (seventeenth batch, `section csumpos`: `csum_pos_of_witness`: proved.)
 -- (eighteenth batch, `section cellsum`: `tot_eq_sum_enumeration`, `tot_eq_sum_enumeration_of_inj_surj`: all proved.)
 -- (nineteenth batch, `section nbrsum`: definition `nbrsum`; `sum_enum_pairs`, `nbrsum_enum`, `card_enum` (helpers `nbr_image_enum`, `nbr_sum_enum`): all proved.)
+-- (twentieth batch, `section nbrrenum`: `nbrsum_renum`, `cnt_renum`, `nbrsum_renum_cells`, `cnt_renum_cells`: all proved.)
 
 end VerifLemmas
